@@ -398,6 +398,7 @@ func TestSessionIsolation(t *testing.T) {
 				}
 				req, kind := hostileRequest(rt, v)
 				inSeq, outSeq := v.user.in.NextSeqNo, v.user.out.NextSeqNo
+				lastContact := v.user.lastConnection
 				codecUp, codecDown, frag := v.user.Serializer.Upstream.Encoder, v.user.Serializer.Downstream.Encoder, v.user.Serializer.Downstream.FragmentSize
 				w.logf("spoof #%d (id %d) from addr%d: %s %+v", v.idx, v.client.userId, from, kind, req)
 				spoofs++
@@ -413,6 +414,9 @@ func TestSessionIsolation(t *testing.T) {
 				}
 				if v.user.in.NextSeqNo != inSeq || v.user.out.NextSeqNo != outSeq {
 					fail("spoof-alters-session", fmt.Sprintf("a spoofed %s message moved the victim's sequence numbers", kind))
+				}
+				if !v.user.lastConnection.Equal(lastContact) {
+					fail("spoof-alters-session", fmt.Sprintf("a spoofed %s message refreshed the victim session's last-contact time (the expiry of a session its owner has abandoned would be put off by anybody who names its identifier)", kind))
 				}
 				if v.user.Serializer.Upstream.Encoder != codecUp || v.user.Serializer.Downstream.Encoder != codecDown || v.user.Serializer.Downstream.FragmentSize != frag || v.user.closed {
 					fail("spoof-alters-session", fmt.Sprintf("a spoofed %s message changed the victim session's parameters or closed it", kind))
